@@ -123,6 +123,39 @@ def correspondence(R, base, ncases):
                     lj = lam
                 exprs.append('(check_type %s %s %s %s %s)' % (coq_f(s2), tup(lj), tup(A[:, j]), tup(X[:, j]), tup(out[:, j])))
                 recs.append(dict(info, sample=j, first_axis_draw=A[:, j].tolist(), auxiliary_draw=X[:, j].tolist(), returned=out[:, j].tolist()))
+    # joint draws for several events (MTfit/algorithms/monte_carlo.py random_sample): Model/Sampling.v joint_draw -- event e, sample j is the
+    # model's function of column j of the e-th block of draws and of nothing else
+    import MTfit.algorithms.monte_carlo as mcarlo
+    for i in range(max(4, ncases // 10)):
+        n, ne, dc = R.rng.choice([1, 2, 3, 5]), R.rng.choice([2, 3, 4]), bool(i % 2)
+        info = {'kind': 'joint-dc' if dc else 'joint-mt', 'number_samples': n, 'number_events': ne}
+        R.count(('draws', info['kind'], i))
+        rec = Recorder(R.rng, n)
+        try:
+            algj = mcarlo.BaseMonteCarloRandomSample(number_samples=n, number_events=ne, dc=dc)
+            outs = with_recorder(rec, lambda: algj.random_sample())
+            outs = [np.asarray(o, dtype=float) for o in outs]
+        except Exception as ex:
+            bad = bad or dict(info, check='generator-exception', error=repr(ex))
+            continue
+        if len(outs) != ne or any(o.shape != (6, n) for o in outs):
+            bad = bad or dict(info, check='sample-count', shape=[list(o.shape) for o in outs], note='each event of a joint draw must receive the requested number of samples')
+            continue
+        shapes = [c[0] for c in rec.calls]
+        info['randn_requests'] = [list(s_) for s_ in shapes]
+        if (not dc and shapes != [(6, n)] * ne) or (dc and shapes != [(3, n)] * (2 * ne)):
+            R.signal('correspondence', dict(info, what='a joint draw no longer requests one block of draws per event ((6, n), or two (3, n) blocks for a double-couple): '
+                                                       'Model/Sampling.v joint_draw cannot be matched'))
+            continue
+        lst = lambda xs: '[' + '; '.join(xs) + ']'
+        expected = lst([lst([tup(outs[e][:, j]) for j in range(n)]) for e in range(ne)])
+        if dc:
+            blocks = lst([lst(['(%s, %s)' % (tup(rec.calls[2 * e][1][:, j]), tup(rec.calls[2 * e + 1][1][:, j])) for j in range(n)]) for e in range(ne)])
+            exprs.append('(check_joint_type %s %s %s %s)' % (coq_f(s2), tup([float(1 / np.sqrt(2)), 0.0, float(-1 / np.sqrt(2))]), blocks, expected))
+        else:
+            blocks = lst([lst([tup(rec.calls[e][1][:, j]) for j in range(n)]) for e in range(ne)])
+            exprs.append('(check_joint_mt %s %s)' % (blocks, expected))
+        recs.append(dict(info, draws_per_event=[c[1].tolist() for c in rec.calls], returned_per_event=[o.tolist() for o in outs]))
     failing, errors = core.run_cases('c08', 'From Coq Require Import PrimFloat.\nFrom MTV.Model Require Import Sampling.\nOpen Scope float_scope.', exprs, chunk=400)
     for e in errors:
         R.signal('correspondence-infrastructure', e)
